@@ -29,7 +29,10 @@ var (
 	errCreateNewDirectory = errors.New("failed to create new directory")
 	errDAGFileEmpty       = errors.New("dagFile is empty")
 
-	rTimestamp = regexp.MustCompile(`2\d{7}.\d{2}:\d{2}:\d{2}`)
+	// rTimestamp extracts the start time from a status file name. The
+	// milliseconds are part of it: runs started within the same second must
+	// still be ordered by their start time.
+	rTimestamp = regexp.MustCompile(`2\d{7}\.\d{2}:\d{2}:\d{2}(\.\d{3})?`)
 )
 
 const (
